@@ -68,6 +68,17 @@ func (f *frame) instr(in ssa.Instruction, st *bstate) {
 		}
 		f.rets = append(f.rets, retInfo{st: st.clone(), results: rs, instr: x})
 	case *ssa.Panic:
+		if pc := f.panicsClauses(); len(pc) > 0 {
+			// exceptional postcondition: a panic may only happen when the
+			// declared condition holds (evaluated on the entry state)
+			env := f.baseEnv(f.entry)
+			for _, c := range pc {
+				st2 := st.clone()
+				f.obligeClause(st2, "panics-only-if", c.Text, f.transBool(c.Expr, env), c, x.Pos())
+			}
+			st.alive = "false"
+			return
+		}
 		if f.allowPanic(x) {
 			// documented panic: path ends here
 			st.alive = "false"
@@ -167,6 +178,19 @@ func (f *frame) panicText(x *ssa.Panic) string {
 		}
 	}
 	return "panic"
+}
+
+func (f *frame) panicsClauses() []*Clause {
+	if !f.top || f.contract == nil {
+		return nil
+	}
+	var out []*Clause
+	for _, c := range f.contract.Ensures {
+		if c.Kind == "panics" && f.eng().clauseActive(c) {
+			out = append(out, c)
+		}
+	}
+	return out
 }
 
 func (f *frame) allowPanic(x *ssa.Panic) bool {
